@@ -155,6 +155,12 @@ type gzipResponseWriter struct {
 // example, a backend system that calculates Content-Length would
 // be wrong because it doesn't know it's being gzipped.
 func (w *gzipResponseWriter) WriteHeader(code int) {
+	if isInformational(code) {
+		// an informational response (such as 103 Early Hints)
+		// goes out as it is; the final header is still to come
+		w.ResponseWriterWrapper.WriteHeader(code)
+		return
+	}
 	w.Header().Del("Content-Length")
 	w.Header().Set("Content-Encoding", "gzip")
 	varyList, exist := w.Header()["Vary"]
@@ -176,6 +182,12 @@ func (w *gzipResponseWriter) WriteHeader(code int) {
 	}
 	w.ResponseWriterWrapper.WriteHeader(code)
 	w.statusCodeWritten = true
+}
+
+// isInformational reports whether code is a 1xx status after which
+// the final response header still follows.
+func isInformational(code int) bool {
+	return code >= 100 && code < 200 && code != http.StatusSwitchingProtocols
 }
 
 // Write wraps the underlying Write method to do compression.
